@@ -138,6 +138,8 @@ func runC15(c *Ctx) {
 			continue
 		}
 		ruleElementWidth(c, p, "C15.width")
+		ruleSwapRegion(c, p, "C15.swap")
+		ruleAppendFromOwnLength(c, p, "C15.append-from-len")
 		c.R.Rule("C15.append", "E4 (see C01.append) in every configuration: both variants leave bytes already in the buffer alone")
 		n := runBufDisc(c, p, "C15.append")
 		c.R.Floor("C15.append", p.Cfg.Name, n, 90)
@@ -790,5 +792,108 @@ func ruleEveryElement(c *Ctx, p *core.Program, rule string) {
 	c.R.Count("encoding loops["+cfg+"]", n)
 	if cfg == core.CfgPurego.Name {
 		c.R.Floor(rule, cfg, n, 20)
+	}
+}
+
+// ruleSwapRegion (C02 / C01 / C15): the byte swap of an encoder covers exactly the bytes it appended.
+func ruleSwapRegion(c *Ctx, p *core.Program, rule string) {
+	c.R.Rule(rule, "where an encoder of package proto byte-swaps a region of Buffer.Buf (bswap.Swap64 on Buf[low:]), low is the length of Buf read before the encoder grew it - the value of len(Buf) itself, not a cursor that the copy loop advanced: swapping from the advanced cursor is a no-op and the UUIDs go out in RFC byte order (pure-Go build only)")
+	cfg := p.Cfg.Name
+	n := 0
+	for _, fn := range p.Funcs() {
+		if pkgOf(fn) == nil || pkgOf(fn).Path() != core.PkgProto || fn.Blocks == nil {
+			continue
+		}
+		for _, call := range core.Calls(fn) {
+			f := core.CalleeFunc(call)
+			if f == nil || f.Pkg() == nil || !strings.HasSuffix(f.Pkg().Path(), "asm/bswap") || len(call.Common().Args) != 1 {
+				continue
+			}
+			sl, ok := call.Common().Args[0].(*ssa.Slice)
+			if !ok || core.FieldOrigin(sl.X, 0) != "Buffer.Buf" {
+				continue
+			}
+			n++
+			key := core.CallKey(fn, call)
+			if sl.High != nil || sl.Low == nil {
+				c.R.Unk(rule, key, cfg, p.Pos(call.Pos()), "swapped region is not Buf[low:]")
+				continue
+			}
+			low := stripConv(sl.Low)
+			if cl, ok := low.(*ssa.Call); ok {
+				if bi, ok := cl.Call.Value.(*ssa.Builtin); ok && bi.Name() == "len" && core.FieldOrigin(cl.Call.Args[0], 0) == "Buffer.Buf" {
+					c.R.Ok(rule, key, cfg, p.Pos(call.Pos()), "swaps from the length Buf had before the append")
+					continue
+				}
+			}
+			if _, isPhi := low.(*ssa.Phi); isPhi {
+				c.R.Bad(rule, key, cfg, p.Pos(call.Pos()), "the swapped region starts at a cursor the copy loop has advanced, not at the length Buf had before the append: nothing (or only a part) of what was appended is swapped to wire order")
+				continue
+			}
+			c.R.Unk(rule, key, cfg, p.Pos(call.Pos()), "start of the swapped region not recognised: "+low.String())
+		}
+	}
+	c.R.Count("byte-swapped Buf regions["+cfg+"]", n)
+}
+
+// ruleAppendFromOwnLength (C15 / C06): a decoder that appends row by row starts from the rows it already had.
+func ruleAppendFromOwnLength(c *Ctx, p *core.Program, rule string) {
+	c.R.Rule(rule, "in every DecodeColumn of package proto that appends one element per decoded value inside a loop, the slice the loop starts from is the column's own data (or a copy of the same length): a pre-allocation whose length - not capacity - already includes the announced row count (make([]T, len(v)+rows)) makes the loop append behind it, the column ends up with twice the rows (the first half zero) and no error; only the pure-Go codecs append per element")
+	cfg := p.Cfg.Name
+	n := 0
+	for _, fn := range p.Funcs() {
+		if pkgOf(fn) == nil || pkgOf(fn).Path() != core.PkgProto || fn.Name() != "DecodeColumn" || fn.Blocks == nil || len(fn.Params) < 3 {
+			continue
+		}
+		rows := fn.Params[len(fn.Params)-1]
+		for _, call := range core.Calls(fn) {
+			cl, ok := call.(*ssa.Call)
+			if !ok || !core.InLoop(cl) {
+				continue
+			}
+			bi, ok := cl.Call.Value.(*ssa.Builtin)
+			if !ok || bi.Name() != "append" || len(cl.Call.Args) != 2 {
+				continue
+			}
+			ph, ok := cl.Call.Args[0].(*ssa.Phi)
+			if !ok {
+				continue
+			}
+			n++
+			key := core.FuncName(fn) + sprintf("/append@%d", cl.Block().Index)
+			var bad ssa.Value
+			seen := map[ssa.Value]bool{}
+			var walk func(v ssa.Value)
+			walk = func(v ssa.Value) {
+				if seen[v] || v == ssa.Value(cl) {
+					return
+				}
+				seen[v] = true
+				switch x := v.(type) {
+				case *ssa.Phi:
+					for _, e := range x.Edges {
+						walk(e)
+					}
+				case *ssa.MakeSlice:
+					if core.DependsOn(x.Len, func(y ssa.Value) bool { return y == ssa.Value(rows) }, false) {
+						bad = x
+					}
+				case *ssa.Slice:
+					walk(x.X)
+				case *ssa.ChangeType:
+					walk(x.X)
+				}
+			}
+			walk(ph)
+			if bad != nil {
+				c.R.Bad(rule, key, cfg, p.Pos(bad.Pos()), "the slice the append loop starts from was made with a length that already counts the rows to decode: the decoded values are appended behind that many zero elements")
+			} else {
+				c.R.Ok(rule, key, cfg, p.Pos(cl.Pos()), "the append loop starts from the column's own data")
+			}
+		}
+	}
+	c.R.Count("element-wise append loops in DecodeColumn["+cfg+"]", n)
+	if cfg == core.CfgPurego.Name {
+		c.R.Floor(rule, cfg, n, 10)
 	}
 }
